@@ -40,7 +40,13 @@ VParent(ev) ==
 (* ["parentcert", n] : the replay covered the whole argument space *)
 VParentCert(ev) == IF ev[2] = Cardinality(ArgSpace) THEN "ok" ELSE "parent:argument-space-incomplete"
 
-Verdict(ev) == CASE ev[1] = "parent" -> VParent(ev) [] ev[1] = "parentcert" -> VParentCert(ev) [] ev[1] = "ctor" -> VCtor(ev) [] ev[1] = "call" -> VCall(ev) [] ev[1] = "result" -> VResult(ev)
+(* ["seqresult", kind, method, nResidues, lengthOfLocationOnParent | -1, locationOnParent] : a sequence returned by a
+   public method that records its location on the parent has exactly that many residues, on a well-formed location *)
+VSeqResult(ev) == IF ev[5] < 0 THEN "ok"
+                  ELSE IF ev[4] # ev[5] \/ ev[5] # LenLoc(ev[6]) THEN "call:ill-formed-result"
+                  ELSE IF ~WellFormed(ev[6], -1) THEN "call:ill-formed-result" ELSE "ok"
+
+Verdict(ev) == CASE ev[1] = "seqresult" -> VSeqResult(ev) [] ev[1] = "parent" -> VParent(ev) [] ev[1] = "parentcert" -> VParentCert(ev) [] ev[1] = "ctor" -> VCtor(ev) [] ev[1] = "call" -> VCall(ev) [] ev[1] = "result" -> VResult(ev)
                  [] OTHER -> "unknown-op"
 Bad == {i \in DOMAIN Trace : Verdict(Trace[i]) # "ok"}
 ASSUME \A i \in Bad : PrintT(<<"BAD", i, Verdict(Trace[i])>>)
